@@ -144,7 +144,7 @@ def run(seed, tier, replay=None):
             Es.append((([C.unhex(v) for v in vin["ys"]], None if vin["ws"] is None else [C.unhex(v) for v in vin["ws"]]),
                        [(sz, vin["generator_seed"])]))
         elif vin.get("cls") in ("q", "n", "e"):
-            oracle_jobs.append((vin["cls"], ast.literal_eval(vin["params"]), vin["N"], vin["generator_seed"]))
+            oracle_jobs.append((vin["cls"], ast.literal_eval(vin["params"].replace("inf", "1e999")), vin["N"], vin["generator_seed"], vin.get("draws", "array")))
 
     def check_shape(cls, inp, size, x):
         shp = expected_shape(size)
@@ -323,7 +323,7 @@ def run(seed, tier, replay=None):
                     suspects.append(("e", params))
 
     # ------------------------------------------------------------------ Spec oracle (the property's own DKW test)
-    def oracle(kind, params, n_draws, oseed):
+    def oracle(kind, params, n_draws, oseed, mode="array"):
         g = np.random.default_rng(oseed)
         eps = dkw_radius(n_draws)
         with warnings.catch_warnings():
@@ -344,7 +344,19 @@ def run(seed, tier, replay=None):
                 ys, ws = params
                 d = ED(ys, ws=ws)
                 acc = 1e-12
-            xs = np.sort(np.ravel(d.sample(n_draws, generator=g)))
+            # the N draws arrive the way a caller may ask for them: one array, N separate scalar draws (size=None), a matrix,
+            # or many short arrays -- the law of the draws may not depend on the shape they are requested in
+            if mode == "scalar":
+                xs = np.array([d.sample(None, generator=g) for _ in range(n_draws)], dtype=float)
+            elif mode == "matrix":
+                xs = np.ravel(d.sample((n_draws // 40, 40), generator=g))
+            elif mode == "chunks":
+                xs = np.concatenate([np.ravel(d.sample(7, generator=g)) for _ in range(n_draws // 7)])
+            else:
+                xs = np.ravel(d.sample(n_draws, generator=g))
+            xs = np.sort(xs)
+            n_draws = len(xs)
+            eps = dkw_radius(n_draws)
             if kind in ("q", "n") and not (kind == "q" and params[0] == params[1]) and not (kind == "n" and params[0] == params[1] and params[3] == 0):
                 F = d.cdf(xs)
                 i = np.arange(1, n_draws + 1)
@@ -360,16 +372,19 @@ def run(seed, tier, replay=None):
                     pm = float(np.max(np.abs(fq - d.pmf(vals))))
         return dist, pm, eps, acc
 
-    def run_oracle(kind, params, n_draws, why, oseed=None):
+    def run_oracle(kind, params, n_draws, why, oseed=None, mode="array"):
         oseed = rng.randrange(2 ** 32) if oseed is None else oseed
-        dist, pm, eps, acc = oracle(kind, params, n_draws, oseed)
-        rep.case(("oracle", kind, repr(params), n_draws, oseed))
+        if mode == "scalar":
+            n_draws = min(n_draws, 20000)
+        dist, pm, eps, acc = oracle(kind, params, n_draws, oseed, mode)
+        rep.case(("oracle", kind, repr(params), n_draws, oseed, mode))
         rep.count("oracle runs")
+        rep.count("oracle draws requested as " + mode)
         ok = dist <= eps + acc and (pm is None or pm <= 2 * eps + acc)
         if not ok:
             rep.violate(what="sup|ECDF_N - cdf| exceeds the DKW radius sqrt(ln(2e12)/(2N)) plus the class accuracy"
                              if dist > eps + acc else "an atom's sampled frequency differs from its weight by more than 2x the DKW radius",
-                        input=dict(cls=kind, params=repr(params), N=n_draws, generator_seed=oseed, reason=why),
+                        input=dict(cls=kind, params=repr(params), N=n_draws, generator_seed=oseed, reason=why, draws=mode),
                         expected=eps + acc, observed=dist if dist > eps + acc else pm,
                         call={"q": "QuadraticDistribution.sample", "n": "NoisyQuadraticDistribution.sample",
                               "e": "EmpiricalDistribution.sample"}[kind])
@@ -377,17 +392,17 @@ def run(seed, tier, replay=None):
 
     n_or = 4000 if tier == "quick" else 200000
     k_or = 6 if tier == "quick" else 40
-    for kind, params, n_draws, oseed in oracle_jobs:
-        run_oracle(kind, params, n_draws, "replay", oseed)
-    for _ in range(k_or if replay is None else 0):
+    for kind, params, n_draws, oseed, mode in oracle_jobs:
+        run_oracle(kind, params, n_draws, "replay", oseed, mode)
+    MODES = ("array", "scalar", "matrix", "chunks")
+    for it in range(k_or if replay is None else 0):
         a, b, c, convex = gen_quad(rng)
-        run_oracle("q", (a, b, c, convex), n_or, "routine")
+        run_oracle("q", (a, b, c, convex), n_or, "routine", mode=MODES[it % 4])
         w = b - a
         o = rng.choice([0.0, 1e-8, 1e-3, 0.1, 1.0, 10.0]) * (w if w > 0 else 1.0)
-        run_oracle("n", (a, b, c, o, convex), n_or, "routine")
+        run_oracle("n", (a, b, c, o, convex), n_or, "routine", mode=MODES[(it + 1) % 4])
         ys, ws = gen_emp(rng)
-        if all(abs(v) != INF for v in ys):
-            run_oracle("e", (ys, ws), n_or, "routine")
+        run_oracle("e", (ys, ws), n_or, "routine", mode=MODES[(it + 2) % 4])     # samples with +-inf atoms included
     # every scale: the same family at tiny and huge absolute scales (absolute thresholds on o or b-a show only there), and a = b with tiny o
     for _ in range(3 if replay is None else 0):
         c, convex = rng.randint(1, 10), rng.random() < 0.5
@@ -405,9 +420,12 @@ def run(seed, tier, replay=None):
             continue
         seen.add(key)
         k2 = {"w": "e", "u": "e"}.get(kind, kind)
-        if k2 == "e" and any(abs(v) == INF for v in params[0]):
-            continue
-        if run_oracle(k2, params, 200000, "the deterministic tie to the model broke for this setting") and k2 == "n" and len(seen) <= 3:
+        why_ = "the deterministic tie to the model broke for this setting"
+        ok_all = run_oracle(k2, params, 200000, why_)
+        for m_ in ("scalar", "matrix", "chunks"):
+            # the shape the draws were requested in is part of the setting: try the others too
+            ok_all = run_oracle(k2, params, 20000, why_, mode=m_) and ok_all
+        if ok_all and k2 == "n" and len(seen) <= 3:
             # failing-input search, second stage: the same (c, shape) on other members of the location-scale family and other noise
             # ratios (an absolute threshold on o or on b-a manifests only at some absolute scales)
             a_, b_, c_, o_, cv_ = params
